@@ -37,9 +37,14 @@ API (everything else in this file is private)
       inside a resolver body and returns its Future (nested futures).
       `ctl.complete_concurrently(labels)` completes several parked calls from
       distinct OS threads at once (real races; thorough tier).
+      PoolController(eager=f): a call whose label satisfies f completes before
+      `submit` returns (a worker faster than the submitting thread).
   Loop specifics:   coroutine resolvers do `await ctl.gate(label)`; everything
       before the await runs when the coroutine is first scheduled, everything
-      after it when the gate is completed.
+      after it when the gate is completed. LoopController(True) keeps
+      AsyncIORuntime's default execute_blocking_functions_in_thread=True and makes
+      the loop's default executor a parking executor: plain-function resolvers are
+      parked under ctl.label_of(...) like pool calls and run when completed.
 
     drive(ctl, choose)                # complete parked calls until none is left;
                                       #   choose(sorted_labels) -> label; returns the schedule
@@ -50,7 +55,7 @@ API (everything else in this file is private)
                                       #   `limit` runs exist the enumeration stops and `samples`
                                       #   random schedules are added instead. stop(result) -> True
                                       #   ends the exploration early (e.g. after a hang).
-    watchdog(seconds)                 # context manager raising Hang in the main thread
+    watchdog(seconds=TIMEOUT[0])      # context manager raising Hang in the main thread
                                       #   (a `.result()` on a pending future would block forever)
 
 Labels must be JSON-able after `list(...)` conversion and sortable; the ones
@@ -61,7 +66,7 @@ import contextlib
 import logging
 import signal
 import threading
-from concurrent.futures import Executor as _CFExecutor, Future
+from concurrent.futures import Executor as _CFExecutor, Future, ThreadPoolExecutor
 
 from py_gql.execution.runtime import AsyncIORuntime, ThreadPoolRuntime
 from py_gql.execution.runtime import threadpool as _tp
@@ -71,8 +76,18 @@ class Hang(BaseException):
     """the implementation blocked (waited on something nobody will complete)"""
 
 
+# wall-clock limit of one run (a healthy run takes ~1 ms; generous because the machine may be
+# loaded); after the first hang further ones are detected quickly (hang_seen)
+TIMEOUT = [30.0]
+
+
+def hang_seen():
+    TIMEOUT[0] = 3.0
+
+
 @contextlib.contextmanager
-def watchdog(seconds):
+def watchdog(seconds=None):
+    seconds = seconds or TIMEOUT[0]
     def _raise(_sig, _frm):
         raise Hang()
 
@@ -80,7 +95,8 @@ def watchdog(seconds):
         yield
         return
     old = signal.signal(signal.SIGALRM, _raise)
-    signal.setitimer(signal.ITIMER_REAL, seconds)
+    # repeat: an exception raised while a __del__ / weakref callback runs is swallowed
+    signal.setitimer(signal.ITIMER_REAL, seconds, 0.5)
     try:
         yield
     finally:
@@ -139,8 +155,9 @@ class _ParkingExecutor(_CFExecutor):
 
 
 class PoolController(_Base):
-    def __init__(self):
+    def __init__(self, eager=None):
         super().__init__()
+        self.eager = eager  # label -> bool: run the call before submit returns (a fast worker)
         self._parked = []  # (label, future, fn, args, kwargs)
         self.runtime = ThreadPoolRuntime(max_workers=1)
         self.runtime._inner.shutdown(wait=False)
@@ -166,6 +183,8 @@ class PoolController(_Base):
         with self._lock:
             self._parked.append((label, fut, fn, args, kwargs))
             self.events.append(["invoke", label])
+        if self.eager is not None and self.eager(label):
+            self.complete(label)  # the worker was faster than the submitting thread
         return fut
 
     def defer(self, label, fn, *args, **kwargs):
@@ -259,11 +278,28 @@ class PoolController(_Base):
 
 
 # ------------------------------------------------------------------ asyncio
+class _LoopParkingExecutor(ThreadPoolExecutor):
+    """default executor of the private loop: `loop.run_in_executor(None, f)` parks f
+    (asyncio insists on a ThreadPoolExecutor instance; no thread is ever started)"""
+
+    def __init__(self, ctl):  # noqa: deliberately no super().__init__
+        self._ctl = ctl
+
+    def submit(self, fn, *args, **kwargs):
+        return self._ctl._park_call(fn, args, kwargs)
+
+    def shutdown(self, *a, **k):
+        pass
+
+
 class LoopController(_Base):
     def __init__(self, execute_blocking_functions_in_thread=False):
         super().__init__()
         self.loop = asyncio.new_event_loop()
         self.loop.set_exception_handler(self._on_loop_exception)
+        self._calls = []  # (label, concurrent Future, fn, args, kwargs): offloaded blocking functions
+        if execute_blocking_functions_in_thread:
+            self.loop.set_default_executor(_LoopParkingExecutor(self))
         self.runtime = AsyncIORuntime(
             loop=self.loop,
             execute_blocking_functions_in_thread=execute_blocking_functions_in_thread,
@@ -275,6 +311,19 @@ class LoopController(_Base):
     def _on_loop_exception(self, _loop, context):
         exc = context.get("exception")
         self.swallowed.append(type(exc).__name__ if exc is not None else context.get("message", "?"))
+
+    def label_of(self, fn, args, kwargs):
+        a = getattr(fn, "args", ()) + tuple(args)  # run_in_executor passes functools.partial(func, *args)
+        info = a[2] if len(a) > 2 else None
+        path = getattr(info, "path", None)
+        return (tuple(path), 0) if path is not None else (getattr(fn, "__name__", "?"), 0)
+
+    def _park_call(self, fn, args, kwargs):
+        fut = Future()
+        label = self.label_of(fn, args, kwargs)
+        self._calls.append((label, fut, fn, args, kwargs))
+        self.events.append(["invoke", label])
+        return fut
 
     def gate(self, label):
         fut = self.loop.create_future()
@@ -314,9 +363,25 @@ class LoopController(_Base):
         return ("raised", e) if e is not None else ("ok", f.result())
 
     def parked(self):
-        return [g[0] for g in self._gates]
+        return [g[0] for g in self._gates] + [c[0] for c in self._calls]
 
     def complete(self, label):
+        for i, c in enumerate(self._calls):
+            if c[0] == label:
+                _l, cfut, fn, args, kwargs = self._calls.pop(i)
+                cfut.set_running_or_notify_cancel()
+                try:
+                    r = fn(*args, **kwargs)
+                except BaseException as e:  # noqa: what the worker thread does
+                    if isinstance(e, Hang):
+                        raise
+                    self.events.append(["finish", label])
+                    cfut.set_exception(e)
+                else:
+                    self.events.append(["finish", label])
+                    cfut.set_result(r)
+                self._settle()
+                return
         for i, g in enumerate(self._gates):
             if g[0] == label:
                 _l, fut = self._gates.pop(i)
